@@ -963,6 +963,18 @@ def _directed_case(case, rec):
     _judge_outcome(rec, res, what, 'directed', res.get('names'), wit, 'directed', what)
 
 
+def extra(seed, tier, workdir):
+    """The same fault-planting / missing-data / directed workload on the ASan/UBSan build of the pinned engine: an invalid
+    specification that is not refused must not make the engine touch memory it does not own either."""
+    from . import _sanitizer
+
+    if tier != 'thorough' and not _sanitizer.available('asan'):
+        return []
+    n = {'plant': 400, 'missing': 300, 'directed': 400} if tier == 'thorough' else {'plant': 16, 'missing': 8, 'directed': 40}
+    cs = [{'seed': seed + 1000, 'i': i, 'kind': k, 'tier': tier} for k, m in n.items() for i in range(m)]
+    return _sanitizer.run_under_asan('C12', 'biomon.checks.c12', cs, workdir, tier)
+
+
 def finalize(cov, tier):
     out = []
     for k in FAULTS:
